@@ -348,5 +348,7 @@ def run(check, tier, seed):
         verify(c, tier, check)
     for c in FSA.ALL:
         c.probe = contract_probe
-        verify(c, tier, check)
+        # (post.region_rows_show_the_block needs 17-19 s of z3's sequence solver on an idle machine and cvc5 does not decide it: the
+        # per-obligation budget of this contract is sized so that the verdict does not flip when all cores are busy)
+        verify(c, tier, check, budget=90 if tier == "quick" else 240)
     bounded(check, tier, seed)
